@@ -9,6 +9,7 @@ IMPORTS = ["SocVerif.Props.C06", "SocVerif.Props.C06T"]
 def run(rep, tier):
     lib.proof_gate(rep, PROP, THEOREMS, IMPORTS)
     n, nv = (120, 160) if tier == "quick" else (8000, 400)
+    n = rep.scale(n)
     agg = runner.correspondence(rep, prop=PROP, mod_name="harness.decsim", driver_kind="csrdec", ncases=n, extra=("csr", nv),
                                 nontrivial=lambda r: r["stats"]["subs"] >= 2 and r["stats"]["unassigned_vectors"] >= 1,
                                 sample_fmt=lambda r: {"decoder": r["descr"], "vectors (addr r_stb w_stb w_data sub r_data…)": r["lines"][r["stats"]["subs"] + 1:][:4], "observed": r["obs"][:4]})
@@ -16,6 +17,7 @@ def run(rep, tier):
     # ---- closing clause, simulated side by side: decoder tree vs one flat multiplexer over all_resources()
     from .. import decsim
     nt, nc = (48, 300) if tier == "quick" else (2000, 500)
+    nt = rep.scale(nt)
     res = lib.pmap(decsim.treeflat_idx, [(rep.seed, i, nc) for i in range(nt)])
     errs = [r for r in res if "harness_error" in r]
     if errs:
